@@ -2,6 +2,7 @@ package checks
 
 import (
 	"fmt"
+	"github.com/rulego/streamsql"
 	"math"
 	"math/rand"
 	"sort"
@@ -279,9 +280,10 @@ func genValue(r *rand.Rand) (v any, present bool) {
 // deliveries were seen (fast path) or the engine is quiescent.  ok=false ⇒ inconclusive.
 type runOpts struct {
 	Opts     eng.Opts
-	Expect   int           // expected number of deliveries (-1: unknown → full quiescence)
-	Pace     time.Duration // sleep between rows
-	PaceFn   func(i int)   // optional per-row hook
+	Expect   int                                 // expected number of deliveries (-1: unknown → full quiescence)
+	Pace     time.Duration                       // sleep between rows
+	PaceFn   func(i int)                         // optional per-row hook
+	Each     func(s *streamsql.Streamsql, i int) // optional per-row hook with the instance (monitoring calls)
 	Settle   time.Duration
 	NoStop   bool
 	MaxWait  time.Duration
@@ -307,6 +309,9 @@ func runWindow(sql string, rows []Row, ro runOpts) runResult {
 		rec.Emit(row)
 		if ro.PaceFn != nil {
 			ro.PaceFn(i)
+		}
+		if ro.Each != nil {
+			ro.Each(s, i)
 		}
 		if ro.Pace > 0 {
 			time.Sleep(ro.Pace)
